@@ -140,26 +140,22 @@ PROPS["C15"] = dict(
 
 def c01_optcheck(run, harnesses):
     """The hypothesis of the all-level optimizer theorem, tested on real samples with the PROVED-SOUND boolean
-    `OptProof.optimizeCheck` (Lean, run by `lake env lean --run OptCheckMain.lean`: its imports reach Mathlib, so
-    it cannot be linked into the driver): for generated terminating programs x levels 2,3 x environments, with
+    `OptCheck.optimizeCheck` (compiled into the driver; proved equal to the proof-side `OptProof.optimizeCheck` by
+    `optimizeCheck_light'`): for generated terminating programs x levels 2,3 x environments, with
     the iteration orders the Rust run really used, the analysis every later round consumes is sound for the
     program it rebuilds. `check-ok` makes `optimize_preserves_of_check'` apply to that program and environment."""
     import os, subprocess
     from common import LEAN, read_lines
     h = harnesses.get("debug") or list(harnesses.values())[0]
-    n = 150 if run.tier == "quick" else 6000
+    n = 600 if run.tier == "quick" else 30000
     d = os.path.join(run.work, "optcheck")
     rc, out = h.run("optcheck", run.seed + 11, n, d, timeout=3000)
     reqp = os.path.join(d, "optcheck.req")
     reqs = read_lines(reqp)
-    try:
-        with open(reqp, "rb") as fi:
-            r = subprocess.run(["lake", "env", "lean", "--run", "OptCheckMain.lean"], cwd=LEAN, stdin=fi,
-                               capture_output=True, timeout=6000)
-        models = r.stdout.decode().split("\n")[: len(reqs)]
-        err = r.stderr.decode()[-500:]
-    except subprocess.TimeoutExpired:
-        models, err = [], "timeout"
+    modp = os.path.join(d, "optcheck.model")
+    okd = run.driver.run_file(reqp, modp)          # compiled `OptCheck.optimizeCheck` (= the proof-side test: optimizeCheck_light')
+    models = read_lines(modp) if okd else []
+    err = "" if okd else "driver failed or timed out"
     okc = sum(1 for m in models if m == "check-ok")
     falsec = sum(1 for m in models if m == "check-false")
     other = [(q, m) for q, m in zip(reqs, models) if m not in ("check-ok", "check-false")]
@@ -182,7 +178,7 @@ def c01_optcheck(run, harnesses):
 
 PROPS["C01"] = dict(
     modules=["Hpbf.Props.C01", "Hpbf.Props.C01Opt", "Hpbf.Props.C01Dse", "Hpbf.Props.ChainTotal", "Hpbf.Props.C01Loop", "Hpbf.Props.C01Rebuild", "Hpbf.Props.C01Rounds", "Hpbf.Props.ChainO1", "Hpbf.Props.C13Opt"],
-    theorems=t("Hpbf.OptProof", "optimizeOnce_preserves_g' optimizeOnce_onceOk_g' laterRound_ok' prevAnalSound_of_check' optimize_preserves_of_check' optimize_onceOk_of_check' optimize_preserves_of_prevAnalSound'") +
+    theorems=t("Hpbf.OptProof", "optimizeOnce_preserves_g' optimizeOnce_onceOk_g' laterRound_ok' prevAnalSound_of_check' optimize_preserves_of_check' optimize_onceOk_of_check' optimize_preserves_of_prevAnalSound' optimizeCheck_light' optimize_preserves_of_check_light' optimize_onceOk_of_check_light'") +
              t("Hpbf.OptTotal", "optimize_no_panic' optimize_never_panics optimize_total' optimize_canonL'") +
              t("Hpbf.OptProof", "optimizeOnce_rdOk' optimizeOnce_analSound' round_dse_behEq' analSound_round1' round1_dse_behEq' optimize_preserves_of_laterRounds'") +
              t("Hpbf.Chain", "level1_all_backends ir_level1 ir_limited_level1 irAgrees_level1 irAgrees_of_behEq onceOk_level1") +
